@@ -578,7 +578,18 @@ func (op *ShellOperator) taskHandleHookRun(t task.Task) queue.TaskResult {
 			}
 		}
 		if shouldCombine {
-			combineResult := op.combineBindingContextForHook(op.TaskQueues, op.TaskQueues.GetByName(t.GetQueueName()), t, nil)
+			// The outcome of a combined run is decided by the settings of this task,
+			// so stop at a task that needs another decision: a different allowFailure
+			// (its contexts may not be dropped on failure) or a Synchronization
+			// that should not be executed.
+			stopCombineFn := func(tsk task.Task) bool {
+				nextMeta := task_metadata.HookMetadataAccessor(tsk)
+				if nextMeta.AllowFailure != hookMeta.AllowFailure {
+					return true
+				}
+				return nextMeta.IsSynchronization() && !nextMeta.ExecuteOnSynchronization
+			}
+			combineResult := op.combineBindingContextForHook(op.TaskQueues, op.TaskQueues.GetByName(t.GetQueueName()), t, stopCombineFn)
 			if combineResult != nil {
 				hookMeta.BindingContext = combineResult.BindingContexts
 				// Extra monitor IDs can be returned if several Synchronization for Group are combined.
